@@ -68,7 +68,8 @@ type dest struct {
 
 // A-B differ in the dataset only, A-C in the host only, A-D in the API key only; B-C, B-D, C-D in two components.
 // A, E, F share exactly ONE component pairwise: A-E the host only, A-F the API key only, E-F the dataset only (so a
-// transmission that keys its batches by any single component, or drops any single component, merges a pair).
+// transmission that keys its batches by any single component merges a pair; one that drops a single component from
+// the key is caught by the pairs that differ in that component only: A-B, A-C, A-D).
 var dests = map[string]dest{
 	"A": {"A", "http://h1.test", "key1", "ds1"},
 	"B": {"B", "http://h1.test", "key1", "ds2"},
@@ -859,7 +860,7 @@ func (w *world) teardown() {
 
 type answer struct {
 	Kind string // ok, okmp, everr, short, 400, 401, 500, 429, 503, timeout, garbage
-	RA   string // Retry-After for 429/503: "", "0", "1", "59", "60", "date" (= now+2s as an HTTP-date), "past" (= now-2s)
+	RA   string // Retry-After for 429/503: "", "0", "1", "59", "60", "date" (= now+2s as an HTTP-date), "past" (= now-2s), "date90" (= now+90s)
 }
 
 func (a answer) String() string {
@@ -916,6 +917,8 @@ func (w *world) buildReply(a answer, q *request) reply {
 			h["Retry-After"] = w.clk.Now().Add(2 * time.Second).UTC().Format(http.TimeFormat)
 		case "past":
 			h["Retry-After"] = w.clk.Now().Add(-2 * time.Second).UTC().Format(http.TimeFormat)
+		case "date90":
+			h["Retry-After"] = w.clk.Now().Add(90 * time.Second).UTC().Format(http.TimeFormat)
 		default:
 			h["Retry-After"] = a.RA
 		}
